@@ -8,6 +8,7 @@ the stream's own state is a fact about the running program: tools/checks/c07.py 
 (threads vs serial, bitwise; ThreadSanitizer build in the thorough tier).
 -/
 import CelerVerif.Lemmas.StreamsBasic
+import CelerVerif.Model.Xorwow
 
 namespace CelerVerif.Streams
 variable {P S A : Type}
@@ -145,6 +146,40 @@ example : evExec demoEv 7 [(0, 1), (1, 2), (0, 3)] (fun _ => (99, 0))
     = evExec demoEv 7 [(2, 1), (2, 2), (2, 3)] (fun _ => (0, 5)) := by decide
 example : evExec demoEv 7 [(0, 1), (1, 2), (0, 3)] (fun _ => (99, 0)) = [(1, 16), (2, 18), (3, 20)] := by
   decide
+
+/-! ### the contract discharged for the RNG as the code reseeds it
+
+The RNG part of a stream's component made concrete: `nslots` XORWOW states.  The boundary is
+`reseed_rng` as modelled for C13 (`Model/Xorwow.lean`, tied to `XorwowRngEngine.hh` and
+`reseed_rng` by the C13 correspondence harness: slot `i` := `init seed (event*nslots+i) 0`).
+Transport is ANY function of the RNG states; the tallies `T` (calorimeters, diagnostics) may be
+updated by ANY function that may even read the stream id — they are outside the view. -/
+def reseedAll (seed nslots e : Nat) : List Xorwow.State :=
+  (List.range nslots).map (fun i => Xorwow.init seed (Xorwow.reseedIndex e nslots i) 0)
+
+def rngEv {T : Type} (nslots : Nat) (transport : Nat → List Xorwow.State → R × List Xorwow.State)
+    (tally : Nat → R → T → T) : EvSem Nat (List Xorwow.State × T) (List Xorwow.State) R where
+  begin := fun seed _ e c => (reseedAll seed nslots e, c.2)
+  run := fun seed i c => ((transport seed c.1).1, ((transport seed c.1).2, tally i (transport seed c.1).1 c.2))
+  view := Prod.fst
+  fresh := fun seed e => reseedAll seed nslots e
+
+theorem rngEv_isolated {T : Type} (nslots : Nat)
+    (transport : Nat → List Xorwow.State → R × List Xorwow.State) (tally : Nat → R → T → T) :
+    (rngEv nslots transport tally).Isolated :=
+  ⟨fun _ _ _ _ => rfl, fun _ _ _ c c' hv => by
+    simp only [rngEv] at hv ⊢
+    rw [hv]⟩
+
+/-- ★ with the RNG reseeded the way the code does it, per-event results do not depend on the
+    assignment of events to streams, on what ran on a stream before, or on the tallies the
+    streams have accumulated — for every transport function, seed, slot count and assignment -/
+theorem reseeded_events_independent_of_assignment {T : Type} (nslots : Nat)
+    (transport : Nat → List Xorwow.State → R × List Xorwow.State) (tally : Nat → R → T → T)
+    (seed : Nat) (asg : List (Nat × Nat)) (comp : Nat → List Xorwow.State × T) :
+    evExec (rngEv nslots transport tally) seed asg comp =
+      asg.map (fun a => (a.2, (transport seed (reseedAll seed nslots a.2)).1)) :=
+  any_assignment_gives_reference_results _ (rngEv_isolated nslots transport tally) seed asg comp (comp 0)
 
 end Events
 
